@@ -41,7 +41,15 @@ RULE = (
     "document' - the intended wire form cannot be established offline), tokens the library has no codec for (0x24, circle-3d, "
     "point-3d with accuracy).  lookup: sequences of 0..8 LRRP.get_token calls (by id or by name, attributes by id or name, "
     "a few deliberately invalid ones that must raise ModuleNotFoundError) on a fresh document.  mutated: canonical buffers "
-    "with truncation / octet substitution / insertion / length-field damage, and arbitrary octets.  Distinct by case hash; "
+    "with truncation / octet substitution / insertion / length-field damage, and arbitrary octets.  Before the random search "
+    "every run executes a DETERMINISTIC boundary pass (documents and lookup): every document id x every token it admits as "
+    "only / first / last token and two / three times in a row; every boundary value of every value kind (septet borders "
+    "63/64, 127/128, 8191/8192, 16383/16384, 2^21, 2^28, 2^31, 2^32-1; uint8 0/127/128/255; floats with those integer parts "
+    "and fractions 0/1/64/127, both signs); opaque / attribute+opaque / inline-table lengths 0, 1, 127, 128, 129, 255, 256, "
+    "16383, 16384; body lengths 124..132 and 16380..16388 (alone, before, between other documents, via an inline table); "
+    "inline tables equal to / one octet different from / proper prefix of / longer than the standard table for every id "
+    "with inline table; two- and three-document buffers built from those documents.  Distinct by case hash (boundary pass: "
+    "de-duplicated list); "
     "non-trivial: >= 2 tokens, or >= 2 documents, or an inline constant table (documents, lookup); the parser got past the "
     "first document header (mutated)."
 )
@@ -535,23 +543,13 @@ def _strategies():
     docs = st.sampled_from([1, 1, 1, 2, 2, 3]).flatmap(lambda n: st.lists(doc(), min_size=n, max_size=n)).map(lambda ds: {"docs": ds})
 
     # ---- lookup calls
-    def name_first(group_name):
-        """name -> first token id carrying it, in the library's lookup order (common, then group)"""
-        order = list(R.COMMON.items()) + (list(R.REQUEST.items()) if group_name == "request" else list(R.REPORT.items()))
-        first = {}
-        for tid, (nm, kind) in order:
-            first.setdefault(nm, tid)
-        return first
-
-    RET_INFO_ATTRS = {0x50: [[], [[0x50, 0x49]], [["ret-info-accuracy", 0x49]]], 0x51: [[], [[0x51, 0x49], [0x54, 0x49]]], 0x52: [[], [[0x54, 0x49]], [["ret-info-time", 0x49]]], 0x53: [[]]}
-
     @st.composite
     def lookup_call(draw, group_name, is_request):
         grammar = R.GROUPS[group_name]
         tid = draw(st.sampled_from(sorted(grammar)))
         nm, kind = grammar[tid]
         value = draw(values[kind])
-        by_name = draw(st.booleans()) and name_first(group_name).get(nm) == tid
+        by_name = draw(st.booleans()) and _name_first(group_name).get(nm) == tid
         attrs = []
         if kind in ("attr_opaque", "attr_none"):
             a = value[0] if kind == "attr_opaque" else value
@@ -647,6 +645,207 @@ def _strategies():
 # ---------------------------------------------------------------------------------------------- drivers
 
 
+# ---------------------------------------------------------------------------------------------- deterministic boundary passes
+
+
+def _name_first(group_name):
+    """name -> first token id carrying it, in the library's lookup order (common, then group)"""
+    order = list(R.COMMON.items()) + (list(R.REQUEST.items()) if group_name == "request" else list(R.REPORT.items()))
+    first = {}
+    for tid, (nm, kind) in order:
+        first.setdefault(nm, tid)
+    return first
+
+
+RET_INFO_ATTRS = {0x50: [[], [[0x50, 0x49]], [["ret-info-accuracy", 0x49]]], 0x51: [[], [[0x51, 0x49], [0x54, 0x49]]], 0x52: [[], [[0x54, 0x49]], [["ret-info-time", 0x49]]], 0x53: [[]]}
+
+LEN_EDGES = [0, 1, 127, 128, 129, 255, 256, 16383, 16384]
+UINT_EDGES = [0, 1, 63, 64, 127, 128, 129, 255, 256, 8191, 8192, 16383, 16384, 16385, 2**21 - 1, 2**21, 2**28 - 1, 2**28, 2**31 - 1, 2**31, 2**32 - 1]
+FILLER = [0x22, "2468ace0"]
+
+
+def _hexpat(n: int, salt: int = 0) -> str:
+    return bytes((salt + 11 * i) & 0xFF for i in range(n)).hex()
+
+
+_P2D = [["00000000", "00000000"], ["7fffffff", "ffffffff"], ["118ecd8d", "118ad47b"], ["80000000", "10801080"], ["00000080", "80000000"]]
+_UFL = [[0, 0], [0, 1], [0, 127], [63, 127], [64, 0], [127, 64], [128, 0], [129, 1], [8191, 127], [8192, 0], [16383, 64], [16384, 127], [2**21, 1], [2**28 - 1, 0], [2**32 - 1, 127]]
+_SFL = [[0, 0, 0], [1, 0, 1], [1, 0, 127], [0, 63, 127], [1, 63, 0], [0, 64, 0], [1, 64, 1], [0, 127, 64], [1, 128, 0], [0, 8191, 127], [1, 8192, 0], [0, 8192, 1], [1, 16384, 64], [0, 2**20, 0],
+        [1, 2**20 - 1, 127], [0, 2**27, 1], [1, 2**27 - 1, 0], [1, 2**31 - 1, 127], [0, 2**31 - 1, 0]]
+BOUNDARY_VALUES = {
+    "none": [None],
+    "opaque": [_hexpat(n, n) for n in (0, 1, 4, 127, 128, 129, 255, 256)] + ["00", "80", "ff", "1080", "22", "0500"],
+    "opaque1": ["00", "01", "22", "7f", "80", "ff", "05"],
+    "attr_opaque": [[a, _hexpat(n, a & 0xFF)] for a, n in zip(UINT_EDGES, [0, 1, 3, 127, 128, 129, 255, 256, 0, 1, 2, 5, 127, 128, 0, 1, 2, 3, 128, 0, 4])],
+    "attr_none": list(UINT_EDGES),
+    "uintvar": list(UINT_EDGES),
+    "uint8": [0, 1, 0x10, 0x22, 0x7F, 0x80, 0xFE, 0xFF],
+    "ufloat": _UFL,
+    "sfloat": _SFL,
+    "infotime": ["0000000000", "1f4dbc7780", "ffffffffff", "8000000080", "0700000000", "2200222222"],
+    "point2d": _P2D,
+    "point3d": [p + [f] for p, f in zip(_P2D * 4, _SFL)],
+    "circle2d": [p + [f] for p, f in zip(_P2D * 3, _UFL)],
+}
+_STD = R.STANDARD_LRRP_TABLE
+BOUNDARY_TABLES = (
+    ["", _STD.hex(), "0141", "00" * 2]
+    + [(_STD[:k] + bytes([_STD[k] ^ 1]) + _STD[k + 1 :]).hex() for k in (0, 1, 40, len(_STD) - 1)]  # one octet different
+    + [_STD[:k].hex() for k in (len(_STD) - 1, len(_STD) - 4, 5, 4, 12, 2)]  # proper prefixes (entry boundary / inside an entry)
+    + [(_STD + b"\x00").hex(), (_STD + b"\x01A").hex(), (_STD + _STD).hex()]  # extensions
+)
+DOC_IDS = sorted(R.NCDT_IDS) + sorted(set(R.DOC_GROUP) - R.NCDT_IDS)
+
+
+def _dedupe(cases):
+    import json
+
+    seen, out = set(), []
+    for c, cls in cases:
+        k = json.dumps(c, sort_keys=True)
+        if k not in seen:
+            seen.add(k)
+            out.append((c, cls))
+    return out
+
+
+def _opaque_for_body(target: int):
+    """tokens of the request group whose canonical body has exactly `target` octets: one inline opaque + 0..2 no-value tokens"""
+    for k in (0, 1, 2):
+        for lf in (1, 2, 3):
+            n = target - 1 - lf - k
+            if n >= 0 and len(R.uintvar(n)) == lf:
+                return [[0x22, _hexpat(n, target)]] + [[0x33, None]] * k
+    raise ValueError(target)
+
+
+def boundary_document_cases():
+    cases = []
+    singles = []  # single documents of pass A, reused for the multi-document pass
+    # A. every document id x every token it admits: as the only / first / last token, twice and three times in a row
+    for di, did in enumerate(DOC_IDS):
+        group = R.GROUPS[R.DOC_GROUP[did]]
+        for ti, tid in enumerate(sorted(group)):
+            kind = group[tid][1]
+            vals = BOUNDARY_VALUES[kind]
+            for pi, pos in enumerate(["only", "first", "last", "twice", "thrice"]):
+                v = [vals[(di * 5 + pi + ti + j) % len(vals)] for j in range(3)]
+                toks = {"only": [[tid, v[0]]], "first": [[tid, v[0]], FILLER], "last": [FILLER, [tid, v[0]]], "twice": [[tid, v[0]], [tid, v[1]]],
+                        "thrice": [[tid, v[0]], [tid, v[1]], [tid, v[2]]]}[pos]
+                d = {"id": did, "table": None if did in R.NCDT_IDS else BOUNDARY_TABLES[(di + ti + pi) % 4], "tokens": toks}
+                singles.append(d)
+                cases.append(({"docs": [d]}, f"position_{pos}"))
+    # B. every boundary value of every kind (one id per group incl. one with inline table), alone and between two other tokens
+    for did in (0x05, 0x07, 0x0B, 0x04, 0x06):
+        group = R.GROUPS[R.DOC_GROUP[did]]
+        for tid in sorted(group):
+            kind = group[tid][1]
+            for vi, v in enumerate(BOUNDARY_VALUES[kind]):
+                table = None if did in R.NCDT_IDS else BOUNDARY_TABLES[vi % 2]
+                cases.append(({"docs": [{"id": did, "table": table, "tokens": [[tid, v]]}]}, "value_alone"))
+                cases.append(({"docs": [{"id": did, "table": table, "tokens": [FILLER, [tid, v], [0x23, "2f"]]}]}, "value_in_the_middle"))
+    # C. lengths of every length-prefixed item: inline opaque, attribute + opaque, inline table
+    for n in LEN_EDGES:
+        for did in (0x05, 0x07, 0x0B, 0x04):
+            table = None if did in R.NCDT_IDS else ""
+            cases.append(({"docs": [{"id": did, "table": table, "tokens": [[0x22, _hexpat(n, 1)]]}]}, "opaque_length_edge"))
+            cases.append(({"docs": [{"id": did, "table": table, "tokens": [[0x22, _hexpat(n, 2)], [0x23, "80"], [0x22, _hexpat(n, 3)]]}]}, "opaque_length_edge"))
+        for did in (0x07, 0x06, 0x11):
+            table = None if did in R.NCDT_IDS else _STD.hex()
+            cases.append(({"docs": [{"id": did, "table": table, "tokens": [[0x39, [n, _hexpat(n, 4)]]]}]}, "attr_opaque_length_edge"))
+            cases.append(({"docs": [{"id": did, "table": table, "tokens": [[0x37, n], [0x39, [128, _hexpat(n, 5)]], [0x38, None]]}]}, "attr_opaque_length_edge"))
+        if n != 1:
+            for did in (0x04, 0x06, 0x0A):
+                cases.append(({"docs": [{"id": did, "table": _hexpat(n, 6), "tokens": []}]}, "table_length_edge"))
+                cases.append(({"docs": [{"id": did, "table": _hexpat(n, 7), "tokens": [FILLER, [0x23, "00"]]}]}, "table_length_edge"))
+    # D. document body lengths around the 1/2- and 2/3-septet borders of the length field
+    for target in list(range(124, 133)) + list(range(16380, 16389)):
+        toks = _opaque_for_body(target)
+        cases.append(({"docs": [{"id": 0x05, "table": None, "tokens": toks}]}, "body_length_edge"))
+        cases.append(({"docs": [{"id": 0x09, "table": None, "tokens": toks}, {"id": 0x0F, "table": None, "tokens": [FILLER]}]}, "body_length_edge_then_document"))
+        cases.append(({"docs": [{"id": 0x0B, "table": None, "tokens": [FILLER]}, {"id": 0x14, "table": None, "tokens": toks}, {"id": 0x05, "table": None, "tokens": []}]}, "body_length_edge_between_documents"))
+        # the same body length reached through an inline table
+        for tl in range(max(0, target - 8), target):
+            d = {"id": 0x04, "table": _hexpat(tl, 9), "tokens": [[0x33, None]]}
+            if tl != 1 and len(R.document_bytes(d)) - 1 - len(R.uintvar(target)) == target:
+                cases.append(({"docs": [d]}, "body_length_edge_with_table"))
+                break
+    # E. inline tables equal to / one octet different from / prefix of / longer than the standard table, for every id with inline table
+    for di, did in enumerate(sorted(set(R.DOC_GROUP) - R.NCDT_IDS)):
+        group = R.GROUPS[R.DOC_GROUP[did]]
+        tids = sorted(group)
+        for k, table in enumerate(BOUNDARY_TABLES):
+            tid = tids[(di + k) % len(tids)]
+            v = BOUNDARY_VALUES[group[tid][1]][k % len(BOUNDARY_VALUES[group[tid][1]])]
+            cases.append(({"docs": [{"id": did, "table": table, "tokens": [FILLER, [tid, v]]}]}, "table_variant"))
+            cases.append(({"docs": [{"id": did, "table": table, "tokens": []}, {"id": did, "table": BOUNDARY_TABLES[(k + 1) % len(BOUNDARY_TABLES)], "tokens": [[tid, v]]}]}, "table_variant_two_documents"))
+    # F. two and three documents per buffer, built from the pass-A documents (every id and token occurs in a non-first position)
+    for i in range(0, len(singles) - 2, 2):
+        cases.append(({"docs": [singles[i], singles[(i * 7 + 3) % len(singles)]]}, "two_documents"))
+        if i % 6 == 0:
+            cases.append(({"docs": [singles[(i * 5 + 1) % len(singles)], singles[i + 1], singles[(i * 11 + 2) % len(singles)]]}, "three_documents"))
+    return _dedupe(cases)
+
+
+def _call_for(group_name: str, tid: int, value, variant: int):
+    """one valid lookup call for the token (by id; by name when that name resolves to this token), attributes as required"""
+    nm, kind = R.GROUPS[group_name][tid]
+    by_name = variant % 2 == 1 and _name_first(group_name).get(nm) == tid
+    attrs = []
+    if kind in ("attr_opaque", "attr_none"):
+        attrs = [[["result-code", 0x22][(variant // 2) % 2], value[0] if kind == "attr_opaque" else value]]
+    elif tid == 0x38:
+        attrs = [[], [[0x23, 0]]][(variant // 2) % 2]
+        if attrs and variant % 2 == 1:
+            by_name = True
+    elif tid in RET_INFO_ATTRS and group_name == "request":
+        attrs = RET_INFO_ATTRS[tid][variant % len(RET_INFO_ATTRS[tid])]
+    c = {"key": nm if by_name else tid, "tid": tid, "kind": kind, "value": value, "attrs": attrs, "is_request": group_name != "report"}
+    if tid in (0x37, 0x38):
+        c["empty_bytes"] = True
+    return c
+
+
+def boundary_lookup_cases():
+    cases = []
+    for di, did in enumerate(DOC_IDS):
+        gname = R.DOC_GROUP[did]
+        group = R.GROUPS[gname]
+        for ti, tid in enumerate(sorted(group)):
+            vals = BOUNDARY_VALUES[group[tid][1]]
+            v = [vals[(di * 3 + ti + j) % len(vals)] for j in range(3)]
+            table = None if did in R.NCDT_IDS else BOUNDARY_TABLES[(di + ti) % 4]
+            for variant in range(4):
+                cases.append(({"doc_id": did, "table": table, "calls": [_call_for(gname, tid, v[variant % 3], variant)]}, "single_call"))
+            cases.append(({"doc_id": did, "table": table, "calls": [_call_for(gname, tid, v[j], j + di) for j in range(3)]}, "same_token_three_times"))
+            cases.append(({"doc_id": did, "table": table, "calls": [_call_for(gname, 0x22, "2468ace0", di), _call_for(gname, tid, v[1], di + ti), _call_for(gname, 0x23, "2f", ti)]}, "between_other_tokens"))
+    # every boundary value through the lookup API (one id per group)
+    for did in (0x05, 0x07, 0x0B, 0x06):
+        gname = R.DOC_GROUP[did]
+        group = R.GROUPS[gname]
+        for tid in sorted(group):
+            for vi, v in enumerate(BOUNDARY_VALUES[group[tid][1]]):
+                cases.append(({"doc_id": did, "table": None if did in R.NCDT_IDS else "", "calls": [_call_for(gname, tid, v, vi)]}, "value_edge"))
+    for n in LEN_EDGES:
+        for did in (0x05, 0x07, 0x0A):
+            gname = R.DOC_GROUP[did]
+            cases.append(({"doc_id": did, "table": None if did in R.NCDT_IDS else _STD.hex(), "calls": [_call_for(gname, 0x22, _hexpat(n, 8), n), _call_for(gname, 0x23, "10", n)]}, "opaque_length_edge"))
+        cases.append(({"doc_id": 0x0D, "table": None, "calls": [_call_for("report", 0x39, [n, _hexpat(n, 9)], n), _call_for("report", 0x37, n, n + 1)]}, "attr_opaque_length_edge"))
+    return _dedupe(cases)
+
+
+def _run_boundary(ctx: Ctx, sub: SubCheck, oracle, cases, nontrivial):
+    def work(ch, t: Tally):
+        for c, cls in ch:
+            ctx.run_case(sub.name, oracle, c, t)
+            t.case(sub.name, nontrivial=nontrivial(c), cls="boundary:" + cls)  # distinct by construction (de-duplicated list)
+            if len(str(c)) < 400:
+                t.sample(sub.name, c)
+
+    ctx.shards(work, [cases[i::32] for i in range(32)])
+    ctx.tally.extra.setdefault("deterministic_boundary_cases", {})[sub.name] = len(cases)
+
+
 def _doc_classes(case):
     ds = case["docs"]
     cl = [f"docs_{len(ds)}"]
@@ -677,6 +876,10 @@ def _doc_nontrivial(case):
 
 
 def drv_documents(ctx: Ctx, sub: SubCheck):
+    cases = boundary_document_cases()
+    _run_boundary(ctx, sub, oracle_documents, cases, _doc_nontrivial)
+    pairs = {(d["id"], t[0]) for c, _ in cases for d in c["docs"] for t in d["tokens"]}
+    ctx.tally.extra["boundary_document_id_x_token_pairs"] = {"covered": len(pairs), "admitted": sum(len(R.GROUPS[g]) for g in R.DOC_GROUP.values())}
     S = _strategies()
     warm_hypothesis_constants()
 
@@ -686,12 +889,13 @@ def drv_documents(ctx: Ctx, sub: SubCheck):
             t.cls(sub.name, k)
 
     def hyp(shard, t: Tally):
-        ctx.hypothesis(sub.name, S["docs"], oracle_documents, ctx.pick(200, 6500), tally=t, shard=shard, record=rec)
+        ctx.hypothesis(sub.name, S["docs"], oracle_documents, ctx.pick(1400, 7000), tally=t, shard=shard, record=rec)
 
-    ctx.shards(hyp, list(range(16)))
+    ctx.shards(hyp, list(range(ctx.pick(16, 80))))
 
 
 def drv_lookup(ctx: Ctx, sub: SubCheck):
+    _run_boundary(ctx, sub, oracle_lookup, boundary_lookup_cases(), lambda c: len(c["calls"]) >= 2 or c.get("table") is not None)
     S = _strategies()
     warm_hypothesis_constants()
 
@@ -712,9 +916,9 @@ def drv_lookup(ctx: Ctx, sub: SubCheck):
             t.cls(sub.name, "kind_" + k)
 
     def hyp(shard, t: Tally):
-        ctx.hypothesis(sub.name, S["lookup"], oracle_lookup, ctx.pick(60, 700), tally=t, shard=shard, record=rec)
+        ctx.hypothesis(sub.name, S["lookup"], oracle_lookup, ctx.pick(500, 900), tally=t, shard=shard, record=rec)
 
-    ctx.shards(hyp, list(range(16)))
+    ctx.shards(hyp, list(range(ctx.pick(16, 80))))
 
 
 def _rec_bytes(sub_name):
@@ -731,9 +935,9 @@ def drv_mutated(ctx: Ctx, sub: SubCheck):
     warm_hypothesis_constants()
 
     def hyp(shard, t: Tally):
-        ctx.hypothesis(sub.name, S["mutated"], oracle_bytes, ctx.pick(150, 4000), tally=t, shard=shard, record=_rec_bytes(sub.name))
+        ctx.hypothesis(sub.name, S["mutated"], oracle_bytes, ctx.pick(1000, 4000), tally=t, shard=shard, record=_rec_bytes(sub.name))
 
-    ctx.shards(hyp, list(range(16)))
+    ctx.shards(hyp, list(range(ctx.pick(16, 80))))
 
 
 def drv_atheris(ctx: Ctx, sub: SubCheck):
@@ -744,9 +948,9 @@ def drv_atheris(ctx: Ctx, sub: SubCheck):
     except Exception:
         ctx.tally.notes.append("atheris not importable: coverage-guided campaign skipped (Hypothesis sub-checks only)")
         return
-    runs = int(os.environ.get("VP_ATHERIS_RUNS", "150000"))
-    max_time = int(os.environ.get("VP_ATHERIS_TIME", "150"))
-    n_proc = 4
+    runs = int(os.environ.get("VP_ATHERIS_RUNS", "400000"))
+    max_time = int(os.environ.get("VP_ATHERIS_TIME", "240"))
+    n_proc = 8
     S = _strategies()
     with tempfile.TemporaryDirectory(prefix="vp-c15-atheris-") as tmp:
         procs = []
